@@ -183,7 +183,7 @@ Proof. intros st T. unfold rt_fire_all. apply rt_fire_enough; [exact T|lia]. Qed
 Lemma rt_step_tinv : forall st ev, rt_ev_ok ev -> rt_tinv st ->
   rt_tinv (fst (rt_step st ev)) /\ ~ In RoFuel (snd (rt_step st ev)).
 Proof.
-  intros st ev Hev T. destruct ev as [dt|s m b cfg r| |s m|s m|]; cbn [rt_step].
+  intros st ev Hev T. destruct ev as [dt|s m b cfg r| |s m|s m|s m tok|s reason|]; cbn [rt_step].
   - cbn [fst snd]. split; [|intros []]. destruct T as (W & B & F).
     split; [exact W|]. split; [|exact F]. cbn. intros X. specialize (B X). cbn in Hev. lia.
   - unfold rt_send. cbn [fst snd]. split.
@@ -222,6 +222,30 @@ Proof.
     + pose proof (rt_fire_all_ok _ T) as H. destruct (rt_fire_all st) as [st1 o].
       destruct H as (NF & _ & T2 & _). cbn [fst snd]. split; [exact T2|].
       intros [I|I]; [discriminate|exact (NF I)].
+  - unfold rt_non.
+    pose proof (rt_nodes_cancel (rt_tok_match s tok) (rs_q st)) as P.
+    pose proof (sq_cancel_wf (rt_tok_match s tok) (rs_q st)) as Wc.
+    destruct (sq_cancel (rt_tok_match s tok) (rs_q st)) as [rm q'] eqn:Ec. cbn [fst snd] in *.
+    assert (T1 : rt_tinv (rt_set_q st q')).
+    { destruct T as (W & B & F). apply rt_set_q_tinv; [split; [exact W|split; [exact B|exact F]]| | |].
+      - apply Wc. exact W.
+      - intros X Y. rewrite Y in Ec. cbn in Ec. inversion Ec; subst. contradiction.
+      - eapply Permutation_Forall in F; [|exact P]. apply Forall_app in F. tauto. }
+    pose proof (rt_fire_all_ok _ T1) as H. destruct (rt_fire_all (rt_set_q st q')) as [st1 o].
+    destruct H as (NF & _ & T2 & _). cbn [fst snd]. split; [exact T2|].
+    intros I. apply in_app_or in I. destruct I as [I|I]; [|exact (NF I)].
+    apply in_map_iff in I. destruct I as (x & X & _). discriminate.
+  - unfold rt_disconnect.
+    pose proof (rt_nodes_cancel (rt_sess_match s) (rs_q st)) as P.
+    pose proof (sq_cancel_wf (rt_sess_match s) (rs_q st)) as Wc.
+    destruct (sq_cancel (rt_sess_match s) (rs_q st)) as [rm q'] eqn:Ec. cbn [fst snd] in *.
+    split.
+    + destruct T as (W & B & F). apply rt_set_q_tinv; [split; [exact W|split; [exact B|exact F]]| | |].
+      * apply Wc. exact W.
+      * intros X Y. rewrite Y in Ec. cbn in Ec. inversion Ec; subst. contradiction.
+      * eapply Permutation_Forall in F; [|exact P]. apply Forall_app in F. tauto.
+    + destruct rm as [|n rm]; [intros [X|[]]; discriminate|].
+      intros I. apply in_map_iff in I. destruct I as (x & X & _). discriminate.
   - cbn [fst snd]. split; [exact T|]. intros [X|[]]; discriminate.
 Qed.
 
@@ -372,7 +396,7 @@ Section Schedule.
   Lemma rt_tick_due_retransmit : forall k c, Z.of_nat c < mx ->
     rt_tick (rt_sched_due k c) =
     (rt_sched_waiting k (S c),
-     [RoTx (rt_sched_time (S c)) u s b;
+     [RoTx (rt_sched_time (S c)) u s b (Z.of_nat (S c)) T;
       RoWait (rt_sched_time (S c)) (T * 2 ^ Z.of_nat (S c)) (rt_sched_time (S (S c)))]).
   Proof.
     intros k c Hc. unfold rt_tick, rt_fire_all.
@@ -420,7 +444,7 @@ Section Schedule.
     match left with
     | O => [RoNack (rt_sched_time (S c)) u s rt_NACK_TOO_MANY_RETRIES m mx mx;
             RoWait (rt_sched_time (S c)) 0 (-1)]
-    | S l => [RoTx (rt_sched_time (S c)) u s b;
+    | S l => [RoTx (rt_sched_time (S c)) u s b (Z.of_nat (S c)) T;
               RoWait (rt_sched_time (S c)) (T * 2 ^ Z.of_nat (S c)) (rt_sched_time (S (S c)))]
              ++ rt_sched_from l (S c)
     end.
@@ -465,12 +489,12 @@ Section Schedule.
 
   (* the transmissions and handler calls among those outputs *)
   Definition rt_is_tx_nack (o : rt_out) : bool :=
-    match o with RoTx _ _ _ _ => true | RoNack _ _ _ _ _ _ _ => true | RoNackNoPdu _ _ _ _ => true
+    match o with RoTx _ _ _ _ _ _ => true | RoNack _ _ _ _ _ _ _ => true | RoNackNoPdu _ _ _ _ => true
                | _ => false end.
 
   Lemma rt_sched_from_filter : forall left c,
     filter rt_is_tx_nack (rt_sched_from left c) =
-    map (fun j => RoTx (rt_sched_time j) u s b) (seq (S c) left) ++
+    map (fun j => RoTx (rt_sched_time j) u s b (Z.of_nat j) T) (seq (S c) left) ++
     [RoNack (rt_sched_time (S (c + left))) u s rt_NACK_TOO_MANY_RETRIES m mx mx].
   Proof.
     induction left as [|l IH]; intros c; cbn [rt_sched_from].
@@ -491,7 +515,7 @@ Theorem rt_schedule : forall t0 base0 k s m b cfg r fuel,
   let (st1, o1) := rt_send (rt_mk_state t0 base0 [] k) s m b cfg r in
   let (st2, o2) := rt_punctual fuel st1 in
   filter rt_is_tx_nack (o1 ++ o2) =
-    map (fun j => RoTx (rt_sched_time t0 T j) k s b) (seq 0 (S (Z.to_nat mx))) ++
+    map (fun j => RoTx (rt_sched_time t0 T j) k s b (Z.of_nat j) T) (seq 0 (S (Z.to_nat mx))) ++
     [RoNack (rt_sched_time t0 T (S (Z.to_nat mx))) k s rt_NACK_TOO_MANY_RETRIES m mx mx] /\
   rs_q st2 = [] /\ rs_now st2 = rt_sched_time t0 T (S (Z.to_nat mx)) /\
   (exists o', o2 = o' ++ [RoWait (rs_now st2) 0 (-1)]).
